@@ -33,7 +33,9 @@ Docs == <<
   [items |-> <<F(1,0,1), BL, F(2,1,0)>>, term |-> FALSE, origins |-> {"parsed"}],
   [items |-> <<F(2,0,0)>>, term |-> FALSE, origins |-> {"parsed", "para_parsed"}],
   \* a repeated name in a paragraph built from pairs
-  [items |-> <<F(1,0,1), F(1,0,3), C(0,1)>>, term |-> TRUE, origins |-> {"built", "para_built"}]
+  [items |-> <<F(1,0,1), F(1,0,3), C(0,1)>>, term |-> TRUE, origins |-> {"built", "para_built"}],
+  \* three blank lines and a run of three comments between two paragraphs
+  [items |-> <<F(1,0,1), BL, BL, BL, H(1), H(2), H(3), F(2,0,1)>>, term |-> TRUE, origins |-> {"parsed"}]
 >>
 
 KeysSet == {1, 2}
